@@ -30,7 +30,7 @@ theorem run_eq (s : Scn) :
   · right
     simp only [Bool.not_eq_true] at hT
     refine ⟨hT, ?_⟩
-    rcases s with ⟨kind, auth, ts, cancel, a1, a2⟩
+    rcases s with ⟨kind, auth, ts, cancel, close, a1, a2⟩
     cases a1 with
     | terr => simp [run, hT, authAsked]
     | hang => simp [run, hT, authAsked]
@@ -42,20 +42,20 @@ theorem run_eq (s : Scn) :
 
 /-- what one POST makes of an answer -/
 theorem attempt_spec (e cn : Bool) (k : Kind) (a : Ans) :
-    ((attempt e cn k a).1 = .blocked ↔ ((a = .hang ∧ e = false) ∨ (a = .ok .jsonHang true ∧ k = .call ∧ cn = false))) ∧
+    ((attempt e cn k a).1 = .blocked ↔ ((a = .hang ∧ e = false) ∨ (bodyWaits k a = true ∧ cn = false))) ∧
     (((attempt e cn k a).1 = .result ∨ (attempt e cn k a).1 = .done) ↔ acceptedAns k a = true) ∧
     ((attempt e cn k a).1 = .result → k = .call) ∧ ((attempt e cn k a).1 = .done → k = .notif) ∧
     ((rejectionAns cn k a = true ∧ (cn = true → e = true)) → (attempt e cn k a).2 = .usable) ∧
     (acceptedAns k a = true → (attempt e cn k a).2 = .usable) ∧
     (goneAns a = true → (attempt e cn k a).2 = .dead ∧ (attempt e cn k a).1 = .err .gone) := by
   cases a with
-  | terr => simp [attempt, acceptedAns, rejectionAns, goneAns]
-  | hang => cases e <;> cases cn <;> simp [attempt, acceptedAns, rejectionAns, goneAns]
+  | terr => simp [attempt, acceptedAns, rejectionAns, goneAns, bodyWaits]
+  | hang => cases e <;> cases cn <;> simp [attempt, acceptedAns, rejectionAns, goneAns, bodyWaits]
   | st c rpc =>
     cases rpc <;> by_cases hT : isTransient c = true <;> by_cases hG : isGone c = true <;>
-      simp [attempt, afterResponse, acceptedAns, rejectionAns, goneAns, hT, hG]
+      simp [attempt, afterResponse, acceptedAns, rejectionAns, goneAns, hT, hG, bodyWaits]
   | ok p sid =>
-    cases p <;> cases sid <;> cases k <;> cases cn <;> simp [attempt, afterResponse, acceptedAns, rejectionAns, goneAns]
+    cases p <;> cases sid <;> cases k <;> cases cn <;> simp [attempt, afterResponse, acceptedAns, rejectionAns, goneAns, bodyWaits]
 
 /-- **C01, client Write path.** Once the caller's context has ended the request is not blocked any more: whatever the
 peer answered (or did not answer) to the first POST and to the retried one, whatever the OAuth handler and its token
@@ -114,14 +114,14 @@ theorem blocked_only_if_pending (s : Scn) : PPending s (obsOf (run s)) := by
     rw [hr] at hx <;> simp only [obs_posts, hr] <;> simp at hx
   · simp [pending, unsent, firstOnly, h1, h2, hc]
   · have := ((attempt_spec (retryEnds s) s.cancel s.kind s.a2).1).1 hx
-    rcases this with ⟨ha, he⟩ | ⟨ha, hk, hc⟩
+    rcases this with ⟨ha, he⟩ | ⟨hw, hc⟩
     · simp [retryEnds, hb] at he
       simp [pending, unsent, firstOnly, lastAns, ha, he, waitingAns]
-    · simp [pending, unsent, firstOnly, lastAns, ha, hk, hc, waitingAns]
+    · cases ha : s.a2 <;> simp_all [pending, unsent, firstOnly, lastAns, waitingAns]
   · have := ((attempt_spec s.cancel s.cancel s.kind s.a1).1).1 hx
-    rcases this with ⟨ha, he⟩ | ⟨ha, hk, hc⟩
+    rcases this with ⟨ha, he⟩ | ⟨hw, hc⟩
     · simp [pending, unsent, firstOnly, lastAns, ha, he, h1, waitingAns]
-    · simp [pending, unsent, firstOnly, lastAns, ha, hk, hc, h1, waitingAns]
+    · cases ha : s.a1 <;> simp_all [pending, unsent, firstOnly, lastAns, waitingAns]
 
 /-- The request completes with a result exactly when the server's real response to it came back on the last POST
 (a call: a complete JSON or SSE response under the session's id; a notification: its acceptance). -/
